@@ -22,15 +22,18 @@ from concurrent.futures import ThreadPoolExecutor
 ROOT = os.path.dirname(os.path.dirname(os.path.abspath(__file__)))
 PY = os.path.join(ROOT, ".venv", "bin", "python")
 NPROC = int(os.environ.get("VF_NPROC", "16"))
+REPO = os.environ.get("VF_REPO", "/repo")  # a scratch copy when trying a seeded mutation
+OUT = os.environ.get("VF_OUT", ROOT)  # where evidence/ and replays/ are written
+KEEP = ("VF_NPROC", "VF_NO_KNOWN", "VF_REPO", "VF_OUT", "VF_ONLY")
 
 
 def _env(extra: dict) -> dict:
     e = dict(os.environ)
-    e["PYTHONPATH"] = "/repo" + os.pathsep + ROOT
+    e["PYTHONPATH"] = REPO + os.pathsep + ROOT
     e["PYTHONHASHSEED"] = "0"
     e["PYTHONDONTWRITEBYTECODE"] = "1"
     for k in list(e):
-        if k.startswith("VF_") and k not in ("VF_NPROC", "VF_NO_KNOWN"):
+        if k.startswith("VF_") and k not in KEEP:
             del e[k]
     for k, v in extra.items():
         e["VF_" + k] = str(v)
@@ -96,12 +99,15 @@ def main() -> int:
     seed = int(os.environ.get("VERIF_SEED", "0"))
     t0 = time.time()
     mod_name = "vf.harness." + prop.lower()
-    sys.path.insert(0, "/repo")
+    sys.path.insert(0, REPO)
     import logging
 
     logging.disable(logging.CRITICAL)
     mod = importlib.import_module(mod_name)
     shards = mod.shards(tier)
+    only = os.environ.get("VF_ONLY")
+    if only:
+        shards = [s for s in shards if only in s["fn"]]
     for s in shards:
         s.setdefault("module", mod_name)
     random.Random(seed).shuffle(shards)  # the seed only permutes shard order
@@ -162,7 +168,7 @@ def main() -> int:
                 print(f"INCONCLUSIVE shard={tag} {r.get('detail', '')[:200]} paths={r.get('paths')}", flush=True)
 
     # 4. replay every counterexample natively before reporting
-    os.makedirs(os.path.join(ROOT, "replays"), exist_ok=True)
+    os.makedirs(os.path.join(OUT, "replays"), exist_ok=True)
     for r in results:
         if r["status"] != "counterexample":
             continue
@@ -192,7 +198,7 @@ def main() -> int:
         h = hashlib.sha1(json.dumps([v.get("call"), v.get("env"), v.get("name")], sort_keys=True).encode()).hexdigest()[:10]
         path = os.path.join("replays", f"{prop}-{h}.json")
         v["property"] = prop
-        with open(os.path.join(ROOT, path), "w") as f:
+        with open(os.path.join(OUT, path), "w") as f:
             json.dump(v, f, indent=1)
         viol_paths.append(path)
         print(f"VIOLATION property={prop} replay={path}", flush=True)
@@ -265,8 +271,8 @@ def main() -> int:
         "wall_s": round(time.time() - t0, 1),
         "violations": len(violations),
     }
-    os.makedirs(os.path.join(ROOT, "evidence"), exist_ok=True)
-    with open(os.path.join(ROOT, "evidence", f"{prop}.json"), "w") as f:
+    os.makedirs(os.path.join(OUT, "evidence"), exist_ok=True)
+    with open(os.path.join(OUT, "evidence", f"{prop}.json"), "w") as f:
         json.dump(evidence, f, indent=1)
     print(f"summary {prop} {tier}: shards={len(results)} confirmed={len(confirmed)} inconclusive={len(inconcl)} "
           f"paths={n_paths} reached={n_reached} smt={len(smt)} violations={len(violations)} wall={evidence['wall_s']}s", flush=True)
